@@ -2084,6 +2084,7 @@ static int32_t parse_XTA(ParserBuilder *aParserBuilder,
 
     // Reset position tracking
     tracker.setPath(ch, xpath);
+    yylloc.start = yylloc.end = tracker.position;
 
     // Parse string
     int res = 0;
@@ -2108,6 +2109,7 @@ static int32_t parseProperty(ParserBuilder *aParserBuilder, const std::string& x
 
     // Reset position tracking
     tracker.setPath(ch, xpath);
+    yylloc.start = yylloc.end = tracker.position;
 
     return utap_parse() ? -1 : 0;
 }
